@@ -134,6 +134,19 @@ pub fn generate(ch: &mut Chooser, o: &NetOpts) -> NetPlan {
             s.class = 248;
         }
     }
+    // point-to-point links (exactly two ports on the segment) may use the peer delay mechanism;
+    // on shared segments it would see several responders and disable the ports
+    for seg in 0..seg_members.len() {
+        if seg_members[seg] == 2 && ch.chance(S_CFG, 1, 4) {
+            for nd in nodes.iter_mut() {
+                for ps in nd.ports.iter_mut() {
+                    if ps.segment == Some(seg) {
+                        ps.p2p = true;
+                    }
+                }
+            }
+        }
+    }
     // re-evaluate (class change cannot make a node better than the previous best)
     let seg_delay = (0..seg_members.len())
         .map(|_| (ch.range(S_CFG, 1, 400) as u128 * US, ch.range(S_CFG, 0, 20) as u128 * US))
@@ -179,7 +192,7 @@ pub fn describe(plan: &NetPlan) -> serde_json::Value {
         "segments": plan.seg_delay.iter().map(|(d,j)| json!({"delay_us": (*d / US) as u64, "jitter_us": (*j / US) as u64})).collect::<Vec<_>>(),
         "nodes": plan.nodes.iter().map(|n| json!({
             "id": Pid::new(n.id,0).short(), "p1": n.priority1, "class": n.class, "acc": n.accuracy, "var": n.variance, "p2": n.priority2,
-            "slave_only": n.slave_only, "ports": n.ports.iter().map(|p| p.segment).collect::<Vec<_>>(),
+            "slave_only": n.slave_only, "ports": n.ports.iter().map(|p| p.segment).collect::<Vec<_>>(), "p2p_ports": n.ports.iter().map(|p| p.p2p).collect::<Vec<_>>(),
             "drift_ppm": n.drift_ppt as f64 / 1e6, "timer_skew_ppm": n.timer_skew_ppt as f64 / 1e6,
             "bmca_period_delta_ms": (n.bmca_period_delta / MS as i128) as i64, "bmca_phase_pm": n.bmca_phase_pm,
         })).collect::<Vec<_>>(),
